@@ -69,7 +69,7 @@ def num_int(tok):
 def float_lit(tok):
     """decimal float literal -> (mantissa, exp10) with value = mantissa / 10^exp10, exactly"""
     t = tok.replace('_', '')
-    t = re.sub(r'f64$', '', t)
+    t = re.sub(r'_?f64$', '', t)
     m = re.fullmatch(r'(\d+)\.(\d*)', t)
     if not m: raise ValueError('not a plain decimal float literal: %r' % tok)
     frac = m.group(2).rstrip('0')
@@ -96,7 +96,7 @@ for k in (1, 2, 3):
 m = need('noise_1.x', noise1, r'letx=\(seed<<(0x[0-9a-fA-F_]+|[0-9_]+)\)\^seed;', '`let x = (seed << K) ^ seed;`')
 vals['seedShift'] = num_int(m.group(1)) if m else 0
 m = need('noise_1.expr', noise1,
-         r';1\.0-\(x\.wrapping_mul\(x\.wrapping_mul\(x\)\.wrapping_mul\(PRIME_1\)\.wrapping_add\(PRIME_2\),?\)\.wrapping_add\(PRIME_3\)&(0x[0-9a-fA-F_]+|[0-9_]+)\)asf64/([0-9_]+\.[0-9_]*)\}$',
+         r';1\.0(?:_?f64)?-\(x\.wrapping_mul\(x\.wrapping_mul\(x\)\.wrapping_mul\(PRIME_1\)\.wrapping_add\(PRIME_2\),?\)\.wrapping_add\(PRIME_3\)&(0x[0-9a-fA-F_]+|[0-9_]+)\)asf64/([0-9_]+\.[0-9_]*(?:_?f64)?)\}$',
          '`1.0 - (x.wrapping_mul(x.wrapping_mul(x).wrapping_mul(PRIME_1).wrapping_add(PRIME_2)).wrapping_add(PRIME_3) & MASK) as f64 / DIV`')
 if m:
     vals['noiseMask'] = num_int(m.group(1))
@@ -112,7 +112,7 @@ vals['seedInc'] = num_int(m.group(1)) if m else 0
 
 # ------------------------------------------------------------------ NoiseSimplex
 simplex_impl = region('NoiseSimplex::next_sample', r'impl<S>\s*NoiseSimplex<S>\s*where\s*S\s*:\s*Step\s*,?\s*\{')
-m = need('NoiseSimplex.TWO_POW_SIXTEEN', simplex_impl, r'constTWO_POW_SIXTEEN:f64=([0-9_]+\.[0-9_]*);', '`const TWO_POW_SIXTEEN: f64 = <float>;`')
+m = need('NoiseSimplex.TWO_POW_SIXTEEN', simplex_impl, r'constTWO_POW_SIXTEEN:f64=([0-9_]+\.[0-9_]*(?:_?f64)?);', '`const TWO_POW_SIXTEEN: f64 = <float>;`')
 vals['simplexWrap'] = 0
 if m:
     mm, ee = float_lit(m.group(1))
@@ -138,21 +138,21 @@ need('simplex_noise_1d.body', simplex_impl,
      r'letmutt0=1\.0-x0\*x0;t0\*=t0;letn0=t0\*t0\*grad\(hash\(i0\)asi64,x0\);'
      r'letmutt1=1\.0-x1\*x1;t1\*=t1;letn1=t1\*t1\*grad\(hash\(i1\)asi64,x1\);',
      'the corner/contribution statements of simplex_noise_1d (i0, i1, x0, x1, t0, n0, t1, n1)')
-m = need('simplex_noise_1d.scale', simplex_impl, r';([0-9_]+\.[0-9_]*)\*\(n0\+n1\)\}', '`<scale> * (n0 + n1)` as the result')
+m = need('simplex_noise_1d.scale', simplex_impl, r';([0-9_]+\.[0-9_]*(?:_?f64)?)\*\(n0\+n1\)\}', '`<scale> * (n0 + n1)` as the result')
 vals['scaleNum'], vals['scaleExp'] = float_lit(m.group(1)) if m else (0, 0)
 
 # ------------------------------------------------------------------ Phase / Sine / Saw / Square
 ph = region('Phase::next_phase', r'impl<S>\s*Phase<S>\s*where\s*S\s*:\s*Step\s*,?\s*\{')
 need('Phase::next_phase_wrapped_to', ph, r'pubfnnext_phase_wrapped_to\(&mutself,rem:f64\)->f64\{letphase=self\.next;self\.next=\(self\.next\+self\.step\.step\(\)\)%rem;phase\}',
      '`let phase = self.next; self.next = (self.next + self.step.step()) % rem; phase`')
-m = need('Phase::next_phase', ph, r'pubfnnext_phase\(&mutself\)->f64\{self\.next_phase_wrapped_to\(([0-9_]+\.[0-9_]*)\)\}', '`self.next_phase_wrapped_to(1.0)`')
+m = need('Phase::next_phase', ph, r'pubfnnext_phase\(&mutself\)->f64\{self\.next_phase_wrapped_to\(([0-9_]+\.[0-9_]*(?:_?f64)?)\)\}', '`self.next_phase_wrapped_to(1.0)`')
 vals['phaseWrap'] = 0
 if m:
     mm, ee = float_lit(m.group(1))
     if ee != 0: err('Phase::next_phase', 'wrap value not integer-valued', line_of(ph[0]))
     else: vals['phaseWrap'] = mm
 sine = region('Sine::next', r'impl<S>\s*Signal\s+for\s+Sine<S>')
-m = need('Sine::next', sine, r'constPI_2:f64=core::f64::consts::PI\*([0-9_]+\.[0-9_]*);letphase=self\.phase\.next_phase\(\);ops::f64::sin\(PI_2\*phase\)\}',
+m = need('Sine::next', sine, r'constPI_2:f64=core::f64::consts::PI\*([0-9_]+\.[0-9_]*(?:_?f64)?);letphase=self\.phase\.next_phase\(\);ops::f64::sin\(PI_2\*phase\)\}',
          '`const PI_2: f64 = core::f64::consts::PI * 2.0; ... ops::f64::sin(PI_2 * phase)`')
 PI_F64 = 3.14159265358979323846264338327950288   # core::f64::consts::PI (nearest f64)
 vals['twoPiBits'] = 0
@@ -161,14 +161,14 @@ if m:
     k = PI_F64 * (mm / 10 ** ee)        # one f64 multiplication, as rustc's const evaluation does
     vals['twoPiBits'] = struct.unpack('<Q', struct.pack('<d', k))[0]
 saw = region('Saw::next', r'impl<S>\s*Signal\s+for\s+Saw<S>')
-m = need('Saw::next', saw, r'letphase=self\.phase\.next_phase\(\);phase\*-([0-9_]+\.[0-9_]*)\+([0-9_]+\.[0-9_]*)\}\}$', '`phase * -2.0 + 1.0`')
+m = need('Saw::next', saw, r'letphase=self\.phase\.next_phase\(\);phase\*-([0-9_]+\.[0-9_]*(?:_?f64)?)\+([0-9_]+\.[0-9_]*(?:_?f64)?)\}\}$', '`phase * -2.0 + 1.0`')
 vals['sawMul'], vals['sawAdd'] = 0, 0
 if m:
     a, ea = float_lit(m.group(1)); b, eb = float_lit(m.group(2))
     if ea or eb: err('Saw::next', 'non-integer constants', line_of(saw[0]))
     else: vals['sawMul'], vals['sawAdd'] = a, b
 sq = region('Square::next', r'impl<S>\s*Signal\s+for\s+Square<S>')
-m = need('Square::next', sq, r'letphase=self\.phase\.next_phase\(\);ifphase<([0-9_]+\.[0-9_]*)\{1\.0\}else\{-1\.0\}\}\}$', '`if phase < 0.5 { 1.0 } else { -1.0 }`')
+m = need('Square::next', sq, r'letphase=self\.phase\.next_phase\(\);ifphase<([0-9_]+\.[0-9_]*(?:_?f64)?)\{1\.0(?:_?f64)?\}else\{-1\.0(?:_?f64)?\}\}\}$', '`if phase < 0.5 { 1.0 } else { -1.0 }`')
 vals['squareThrNum'], vals['squareThrExp'] = float_lit(m.group(1)) if m else (0, 0)
 # step = hz / rate
 need('Rate::const_hz', (0, src_nc), r'pubfnconst_hz\(self,hz:f64\)->ConstHz\{ConstHz\{step:hz/self\.hz\}\}', '`ConstHz { step: hz / self.hz }`')
